@@ -525,6 +525,20 @@ class Scheduler:
                         f" (capacity {capacity})"
                     )
 
+        # A job that depends on a job no scheduler has been given (e.g. submitted
+        # with run_mode=DRY_RUN) would wait for ever
+        for dependency in job.dependencies:
+            origin = dependency.origin
+            if (
+                isinstance(dependency, JobDependency)
+                and getattr(origin, "_future", None) is None
+                and origin.state == JobState.UNSCHEDULED
+            ):
+                raise ValueError(
+                    f"{job} depends on {origin}, which has not been submitted"
+                    " to a scheduler"
+                )
+
         # Wait for the future containing the submitted job
         logger.debug("Registering the job %s within the scheduler", job)
         otherFuture = asyncio.run_coroutine_threadsafe(
